@@ -295,6 +295,8 @@ def _run(scn, w, res):
                 ok = not ru.tx_fifo and ru.rx_fifo == rx0
             if not ok or ru.flags != flags0:
                 res.add("flush", {"kind": o}, "%s: RX %d->%d, TX %d->%d, flags 0x%02X->0x%02X" % (o, len(rx0), len(ru.rx_fifo), len(tx0), len(ru.tx_fifo), flags0, ru.flags))
+        elif o == "last_tx_arc" and lite:
+            pass   # not part of the lite API
         elif o == "last_tx_arc":
             got = uut.last_tx_arc
             if got != ru.arc_cnt:
